@@ -960,6 +960,14 @@ func (e *Engine) VerifyFunction(fc *FuncContract) *FuncResult {
 			}
 		}
 	}
+	// an `atcall` clause whose callee is never called in this function would silently claim nothing
+	if x.aborted == "" {
+		for callee := range fc.AtCall {
+			if !x.atcallSeen[callee] {
+				x.bindErrors = append(x.bindErrors, fmt.Sprintf("%s:%d: atcall %s: no call site of that name in %s (nothing would be checked)", fc.File, fc.Line, callee, key))
+			}
+		}
+	}
 	res.Obls = x.obls
 	res.Paths = x.paths
 	res.Aborted = x.aborted
@@ -1433,6 +1441,7 @@ func (e *Engine) initOnlyErrGlobal(g *ssa.Global) bool {
 	if !isPtr || !types.Identical(pt.Elem(), types.Universe.Lookup("error").Type()) || g.Pkg == nil {
 		return false
 	}
+	g.Pkg.Build() // packages outside the module are built on demand
 	inits, others := 0, 0
 	var visit func(fn *ssa.Function)
 	seen := map[*ssa.Function]bool{}
